@@ -17,11 +17,13 @@ pub struct Mutation {
     pub size_delta: i64,
     /// cut the final stream (header + body) after this many bytes
     pub cut_stream_at: Option<usize>,
+    /// world only: the size bytes of the header are replaced by exactly these bytes (any form, any value), the opcode follows
+    pub raw_size_bytes: Option<Vec<u8>>,
 }
 
 impl Mutation {
     fn base(f: &Frame, kind: &'static str, desc: String) -> Mutation {
-        Mutation { kind, desc, plain: f.plain.clone(), comp_start: f.comp_start, wire_body: None, size_delta: 0, cut_stream_at: None }
+        Mutation { kind, desc, plain: f.plain.clone(), comp_start: f.comp_start, wire_body: None, size_delta: 0, cut_stream_at: None, raw_size_bytes: None }
     }
     pub fn body(&self) -> Vec<u8> {
         match &self.wire_body {
@@ -341,6 +343,38 @@ pub fn truncations(f: &Frame, world: bool) -> Vec<Mutation> {
     out
 }
 
+/// T11: header forms and size values no well-behaved writer produces: a size smaller than the opcode it has to include
+/// (0, 1, ... in the 2-byte form) and, for Wrath server messages, the 3-byte form carrying a small size (0, 1, 2, 3, the
+/// largest 2-byte value) or the largest 3-byte value
+pub fn header_mutations(f: &Frame, exp: Exp, dir: Dir) -> Vec<Mutation> {
+    let mut out = Vec::new();
+    let opcode_len: u16 = if dir == Dir::Client { 4 } else { 2 };
+    let mut raws: Vec<(String, Vec<u8>)> = Vec::new();
+    for v in 0..=opcode_len {
+        raws.push((format!("2-byte size field = {}", v), v.to_be_bytes().to_vec()));
+    }
+    raws.push(("2-byte size field = 0xFFFF".into(), vec![0xFF, 0xFF]));
+    if exp == Exp::Wrath && dir == Dir::Server {
+        raws.pop();
+        raws.push(("2-byte size field = 0x7FFF".into(), vec![0x7F, 0xFF]));
+        for v in [0u32, 1, 2, 3, 4, 0x7FFF, 0x8000, 0x7F_FFFF] {
+            raws.push((format!("3-byte size form carrying {:#x}", v), vec![0x80 | (v >> 16) as u8, (v >> 8) as u8, v as u8]));
+        }
+    }
+    for (what, raw) in raws {
+        for with_body in [true, false] {
+            let mut m = Mutation::base(f, "T11", format!("header: {}{}", what, if with_body { "" } else { ", nothing after the header" }));
+            m.raw_size_bytes = Some(raw.clone());
+            if !with_body {
+                m.plain.clear();
+                m.comp_start = None;
+            }
+            out.push(m);
+        }
+    }
+    out
+}
+
 /// T10: two structured faults at once - a string or count fault in one field AND the body ending (header consistent) at a
 /// later field boundary, in particular at the start of a trailing variable part. Size accounting that runs ahead of the
 /// reader only shows when nothing is left to absorb the difference.
@@ -582,6 +616,14 @@ pub fn assemble_world(exp: Exp, dir: Dir, opcode: u32, m: &Mutation) -> Vec<u8> 
     let body = m.body();
     let announced = (body.len() as i64 + m.size_delta).max(0) as usize;
     let mut s = world_header(exp, dir, opcode, announced);
+    if let Some(raw) = &m.raw_size_bytes {
+        // header forms and size values a well-behaved writer never produces
+        s = raw.clone();
+        match dir {
+            Dir::Client => s.extend_from_slice(&opcode.to_le_bytes()),
+            Dir::Server => s.extend_from_slice(&(opcode as u16).to_le_bytes()),
+        }
+    }
     let hl = s.len();
     s.extend_from_slice(&body);
     if let Some(c) = m.cut_stream_at {
